@@ -1,6 +1,6 @@
 (* C06 -- deadlines and retries: bounded, exact, and (not) safe to hit at any moment. *)
 From EC Require Import Base.Prelude Base.Bytes Pdu.Frame Pdu.Slots Pdu.View Pdu.Hist Pdu.SlotsProofs Pdu.Client
-  Pdu.ClientProofs Pdu.Deadline Pdu.DeadlineProofs.
+  Pdu.ClientProofs Pdu.Deadline Pdu.DeadlineProofs Pdu.Own2 Pdu.Own2Proofs Pdu.SafeOutside.
 Local Open Scope N_scope.
 
 (* With R retries and no response the frame is transmitted exactly R+1 times, every transmission
@@ -93,3 +93,40 @@ Example c06_example :
   let '(s2, _) := op_push s1 0 (mk_command CBrd 0 0) [] (Some 1%nat) in
   only_sendable (op_mark s2 0) 0.
 Proof. vm_compute. split; [lia|]. split; [reflexivity|]. intros j Hj; lia. Qed.
+
+(* The safety clause OUTSIDE the windows, over the window-granular alphabet (Pdu/Own2.v: application
+   operations on held handles, the transmit side's claim / send outcome, the receive side's claim /
+   copy / done, poll and response-drop split at their yield points; deadlines acting between the
+   poll's test and its stores with any retry budget).  The alphabet's guards exclude exactly expiry
+   and abandonment while the transmit or receive side is inside the buffer (the refuted windows
+   above).  For every history: at most one party is ever inside a buffer (no other request observes
+   or corrupts it); the transmit / receive tasks keep their frame until they themselves move it on;
+   the slot is never lost - whenever nobody holds a handle for it, it is free - so allocation only
+   fails when every slot has a live handle. *)
+Theorem c06_safe_mutex : forall n cap ops x, In n pow2s -> xrun (xinit n cap) ops = Some x ->
+  forall i, (i < nslots (xs x))%nat ->
+  (parties x i <= 1)%nat /\
+  (hk_eqb (hget (xh x) i) HCreated = true <-> sst (get (xs x) i) = SCreated) /\
+  (hk_eqb (hget (xh x) i) HReceived = true <-> sst (get (xs x) i) = SRxProcessing) /\
+  (tx_in x i = true <-> sst (get (xs x) i) = SSending) /\
+  (rx_in x i = true <-> sst (get (xs x) i) = SRxBusy).
+Proof. exact mutex. Qed.
+Print Assumptions c06_safe_mutex.
+
+Theorem c06_safe_tasks_not_broken : forall n cap ops x, In n pow2s -> xrun (xinit n cap) ops = Some x ->
+  forall i, (i < nslots (xs x))%nat ->
+  (tx_in x i = true -> sst (get (xs x) i) = SSending /\ hget (xh x) i = HFut) /\
+  (rx_in x i = true -> sst (get (xs x) i) = SRxBusy /\ hget (xh x) i = HFut).
+Proof. exact tasks_not_broken. Qed.
+Print Assumptions c06_safe_tasks_not_broken.
+
+Theorem c06_safe_slot_not_lost : forall n cap ops x, In n pow2s -> xrun (xinit n cap) ops = Some x ->
+  forall i, (i < nslots (xs x))%nat -> hget (xh x) i = HNone ->
+  sst (get (xs x) i) = SNone /\ tx_in x i = false /\ rx_in x i = false.
+Proof. exact slot_not_lost. Qed.
+Print Assumptions c06_safe_slot_not_lost.
+
+Theorem c06_safe_alloc : forall n cap ops x, In n pow2s -> xrun (xinit n cap) ops = Some x ->
+  (snd (alloc (xs x)) = None -> forall i, (i < nslots (xs x))%nat -> hget (xh x) i <> HNone).
+Proof. exact alloc_unless_all_held. Qed.
+Print Assumptions c06_safe_alloc.
